@@ -311,7 +311,9 @@ var ErrListenClosed = errors.New("listener is closed")
 // NOTE: The caller ensures that the listener supports graceful shutdown.
 func (p *peer) serveListener(lis net.Listener, protoFunc ...ProtoFunc) error {
 	defer lis.Close()
+	p.mu.Lock()
 	p.listeners[lis] = struct{}{}
+	p.mu.Unlock()
 
 	network := lis.Addr().Network()
 	switch lis.(type) {
@@ -403,7 +405,13 @@ func (p *peer) Close() (err error) {
 		}
 	}()
 	close(p.closeCh)
+	p.mu.Lock()
+	listeners := make([]net.Listener, 0, len(p.listeners))
 	for lis := range p.listeners {
+		listeners = append(listeners, lis)
+	}
+	p.mu.Unlock()
+	for _, lis := range listeners {
 		if _, ok := lis.(*quic.Listener); !ok {
 			lis.Close()
 		}
@@ -424,7 +432,7 @@ func (p *peer) Close() (err error) {
 		err = errors.Merge(err, <-errCh)
 	}
 	close(errCh)
-	for lis := range p.listeners {
+	for _, lis := range listeners {
 		if qlis, ok := lis.(*quic.Listener); ok {
 			err = errors.Merge(err, qlis.Close())
 		}
